@@ -15,6 +15,8 @@ import (
 
 	"golang.org/x/tools/go/packages"
 	"golang.org/x/tools/go/ssa"
+
+	"wvsa/internal/facts"
 )
 
 // AllowedErrPkg is the only package that may report type errors (deliberate compile-time sentinel).
@@ -108,6 +110,39 @@ func Load(o Options) (*Program, error) {
 	} else {
 		for _, r := range pkgs {
 			p.SSAPkg[r.PkgPath].Build()
+		}
+	}
+	for _, r := range pkgs {
+		for _, f := range r.Syntax {
+			ast.Inspect(f, func(n ast.Node) bool {
+				record := func(lhs []ast.Expr, rhs []ast.Expr) {
+					if len(lhs) != len(rhs) {
+						return
+					}
+					for i, e := range rhs {
+						ce, ok := e.(*ast.CallExpr)
+						if !ok {
+							continue
+						}
+						if id, ok := ce.Fun.(*ast.Ident); ok && id.Name == "make" {
+							if l, ok := lhs[i].(*ast.Ident); ok {
+								facts.LocalNames[ce.Lparen] = l.Name
+							}
+						}
+					}
+				}
+				switch x := n.(type) {
+				case *ast.AssignStmt:
+					record(x.Lhs, x.Rhs)
+				case *ast.ValueSpec:
+					var lhs []ast.Expr
+					for _, nm := range x.Names {
+						lhs = append(lhs, nm)
+					}
+					record(lhs, x.Values)
+				}
+				return true
+			})
 		}
 	}
 	p.LoadTime = time.Since(t0)
